@@ -397,6 +397,11 @@ func fileget(h FileReader, r *Request, pkt requestPacket, alloc *allocator, orde
 	if rd == nil {
 		return statusFromError(pkt.id(), errors.New("unexpected read packet"))
 	}
+	switch pkt.(type) {
+	case *sshFxpWritePacket, *sshFxpReaddirPacket:
+		// a WRITE or READDIR on a handle that was opened for reading
+		return statusFromError(pkt.id(), errors.New("unexpected packet type for a file opened for reading"))
+	}
 
 	data, offset, _ := packetData(pkt, alloc, orderID, maxTxPacket)
 
@@ -418,6 +423,11 @@ func fileput(h FileWriter, r *Request, pkt requestPacket, alloc *allocator, orde
 	wr := r.getWriterAt()
 	if wr == nil {
 		return statusFromError(pkt.id(), errors.New("unexpected write packet"))
+	}
+	switch pkt.(type) {
+	case *sshFxpReadPacket, *sshFxpReaddirPacket:
+		// a READ on a handle that was opened for writing must not reach WriteAt
+		return statusFromError(pkt.id(), errors.New("unexpected packet type for a file opened for writing"))
 	}
 
 	data, offset, _ := packetData(pkt, alloc, orderID, maxTxPacket)
@@ -513,6 +523,11 @@ func filelist(h FileLister, r *Request, pkt requestPacket) responsePacket {
 	lister := r.getListerAt()
 	if lister == nil {
 		return statusFromError(pkt.id(), errors.New("unexpected dir packet"))
+	}
+	switch pkt.(type) {
+	case *sshFxpReadPacket, *sshFxpWritePacket:
+		// a READ or WRITE on a directory handle must not advance the listing
+		return statusFromError(pkt.id(), errors.New("unexpected packet type for a directory handle"))
 	}
 
 	offset := r.lsNext()
